@@ -312,6 +312,13 @@ def run(ctx):
                     payload = PAYLOADS[i % len(PAYLOADS)]
                     check_compact(ctx, alg, enc, zip_name, payload, 60 if quick else (None if len(payload) < 100 else 600))
                     i += 1
+    # long plaintexts, compressed and not: sizes around powers of two and beyond a quarter of a megabyte
+    big = [(b"0123456789abcdef" * 16400)[:262145], bytes(ctx.rng.getrandbits(8) for _ in range(70001)), b"z" * 1048577]
+    for n, payload in enumerate(big if not quick else big[:2]):
+        for zip_name in ("DEF", None):
+            if zip_name is None and len(payload) > 100000:
+                continue          # uncompressed, the serialization itself is a third longer than the plaintext: one size is enough
+            check_compact(ctx, ("A128KW", "dir", "A256GCMKW")[n], ("A128GCM", "A128CBC-HS256", "A256GCM")[n], zip_name, payload, 4)
     # ECDH-ES over every curve
     for kid in ("p384", "p521", "x25519", "x448"):
         old = E.default_key_for
